@@ -28,12 +28,23 @@ def run(tier, seed):
     n, steps = (20, 450) if tier == "quick" else (200, 900)
     jobs = q.make_jobs(rng, ttl_cfgs, n, steps, extra=["--bias", "ttl"])
     viol, st = q.run_engine(PROP, tier, seed, INV, jobs, rd, fxv)
+    # concurrent part: the sweeper and the lazy expiry path racing with writers that renew, replace or
+    # re-create the key (LinTrace SweepSafe: only the expired CURRENT generation is ever removed by expiry,
+    # and no call returns an expired value)
+    import concengine as ce
+    from checks.c07 import collect
+    cst = {"traces": 0, "states": 0, "transitions": 0, "schedules": 0, "stalls": 0, "events": 0}
+    fam = [(n, p) for n, p in ce.pair_family() if n.startswith("expired|") or "|sweep" in n or "sweep|" in n]
+    res = ce.run_dfs(fxv, rd, fam, "sweep", maxsched=400 if tier == "quick" else 3000, preempt=2 if tier == "quick" else 3)
+    collect(PROP, res, rd, ["SweepSafe", "Linearizable"], viol, cst)
+    st["traces"] += cst["traces"]; st["states"] += cst["states"]; st["transitions"] += cst["transitions"]
+    st["events"] += cst["events"]
     cov = q.coverage_dict(
         st, sum(r.distinct for r in mc), sum(r.generated for r in mc),
         "one trace = one seeded TTL-heavy program (TTL writes, update_ttl/persist, clock ticks across "
         "expiry instants incl. the exact instant, sweeps, flush, clean reopen with the virtual clock) "
         "on a TTL-enabled store (memory, persistent v2/v3, cache on/off); distinct by content hash",
-        q.sample_events(st["sample_trace"]))
+        q.sample_events(st["sample_trace"]), extra={"concurrent_schedules": cst["schedules"]})
     return {"level": "model_checking", "coverage": cov, "violations": viol,
             "assumptions": ["virtual clock (hook)", "sweeper driven explicitly (verif_sweep_once)"]}
 
